@@ -2,10 +2,10 @@
    A state is its signed stabilizer group: in_group n t a  <->  a is a product of active stabilizers of t (Proofs/MeasureFacts.v).  For a stabilizer state
    Tr(rho O) is +1 / -1 / 0 according to O / -O / neither being in the group (expect1, C07), so the Born probability of outcome 'out' for a Hermitian Pauli O is
    (1 + (-1)^out <O>)/2 in {1, 1/2, 0}; log2 of it is what 'lp' must be.  The coin of an undetermined outcome is a universally quantified input.
-   PARTIAL with respect to the post-measurement density matrix: proved at the group level (the new group contains (-1)^out O and every old stabilizer that commutes with O,
-   rank drops exactly when no active stabilizer anticommutes, i.e. when an undetermined LOGICAL operator was measured); that these generate exactly the group of
-   P rho P / Tr follows by counting generators (N - r' independent ones, C05) and is compared densely (N<=4) by the correspondence check. *)
-From PC Require Import Gen.Kernels Model.Base Model.Pauli Model.CMap Model.Tableau Model.Spec Proofs.TableauInv Proofs.MeasureFacts Proofs.ProjectionFacts.
+   The post-measurement state is characterised at the group level (new group = {b, b.(+-O) : b old, commuting with O}, both inclusions; rank drops exactly when no active
+   stabilizer anticommutes) AND as a matrix identity: rho' = P rho P / Tr(P rho P) entry by entry in the ket semantics, Tr(P rho P) = 1/2 (Proofs/ProjectorFacts.v).
+   Dense comparison (N<=4) remains in the correspondence check. *)
+From PC Require Import Gen.Kernels Model.Base Model.Pauli Model.CMap Model.Tableau Model.Spec Proofs.TableauInv Proofs.MeasureFacts Proofs.ProjectionFacts Model.Poly Model.PolySem Model.Sample Proofs.TraceFacts Proofs.ProjectorFacts.
 Open Scope Z_scope.
 
 (* determined: +-O already a stabilizer: nothing changes, log2-probability 0, the outcome is the eigenvalue fixed by the state *)
@@ -74,6 +74,25 @@ Print Assumptions C06_determined_group_unchanged.
 Theorem C06_group_closed_under_products : forall n t a b, tableau_ok n t -> in_group n t a -> in_group n t b -> in_group n t (pmul a b).
 Proof. exact group_closed. Qed.
 Print Assumptions C06_group_closed_under_products.
+(* THE PROJECTION POSTULATE AS A MATRIX IDENTITY.  With P = (1 + s O)/2 the projector of the recorded outcome (s O = (fst o, 2*coin)) and rho, rho' the density
+   polynomials (2^-N sum over the stabilizer group, as density_matrix builds them) before and after an undetermined measurement:
+   rho' = 2 P rho P entry by entry, and Tr(P rho P) = 1/2, i.e. rho' = P rho P / Tr(P rho P); rank-preserving and rank-dropping cases alike *)
+Theorem C06_post_state_is_P_rho_P_normalised : forall n t o coin k k', tableau_ok n t -> length (fst o) = n -> hermP o -> (coin = 0 \/ coin = 1) ->
+  (exists i, (i < n + rk t)%nat /\ acq (fst (row (rows t) i)) (fst o) = 1) -> length k = n ->
+  let t' := fst (fst (fst (measure1 t o coin))) in
+  amp (density_poly t') k k' = cmul c2 (amp (sandwich n (fst o, 2 * coin) (density_poly t)) k k').
+Proof. exact measure1_density. Qed.
+Print Assumptions C06_post_state_is_P_rho_P_normalised.
+Theorem C06_born_probability_one_half : forall n t o, tableau_ok n t -> length (fst o) = n -> hermP o -> expect1 t o = 0 ->
+  cmul c2 (trace_sem n (sandwich n o (density_poly t))) = c1.
+Proof. exact sandwich_trace_half. Qed.
+Print Assumptions C06_born_probability_one_half.
+(* determined cases: P rho P = rho when O is a stabilizer (probability 1, state unchanged), = 0 when -O is (probability 0) *)
+Theorem C06_eigenstate_projection : forall n t o k k', tableau_ok n t -> length (fst o) = n -> hermP o -> length k = n ->
+  (in_group n t o -> amp (sandwich n o (density_poly t)) k k' = amp (density_poly t) k k') /\
+  (in_group n t (pneg o) -> amp (sandwich n o (density_poly t)) k k' = c0).
+Proof. intros n t o k k' Ht Hl Hh Hk. split; intro Hg; [exact (sandwich_eigen_plus n t o k k' Ht Hl Hh Hg Hk) | exact (sandwich_eigen_minus n t o k k' Ht Hl Hh Hg Hk)]. Qed.
+Print Assumptions C06_eigenstate_projection.
 (* non-vacuity: the witness of the repaired pivot defect -- mixed state (r=1) with stabilizer Z1 and logical pair Z0/X0, observable X0X1 is undetermined and
    the rank must NOT drop because the active stabilizer Z1 anticommutes *)
 Example C06_example :
